@@ -36,3 +36,9 @@ Example C19_regs_nonempty :
   200 <= length regs /\ 30 <= length (filter (fun r => String.eqb (rvar r) "outtreefile") regs).
 Proof. vm_compute. split; repeat constructor. Qed.
 Print Assumptions C19_regs_nonempty.
+
+(** behaviour may depend on an option's VALUE only: every `Flags().Changed(..)` presence test of
+    the current source is one of the reviewed ones (which are reported as a known finding) *)
+Theorem C19_no_unreviewed_presence_test : unreviewed_changed changed_sites = [].
+Proof. vm_compute. reflexivity. Qed.
+Print Assumptions C19_no_unreviewed_presence_test.
